@@ -117,3 +117,53 @@ func lemmaMulSucc(d float64, k int) {}
 
 // lemmaZeroArith: 0 / c = 0 and d * 0 = 0.
 func lemmaZeroArith(c, d float64) {}
+
+// ---- how many ring slots each target occupies ----------------------------------------------------------------------
+
+// lemmaCountFrame: two rings that agree on their first n entries hold p equally often there.
+func lemmaCountFrame(a, b []*Target, n int, p *Target) {
+	if n <= 0 {
+		return
+	}
+	lemmaCountFrame(a, b, n-1, p)
+}
+
+// lemmaCountFillOne: filling the empty entry j (< n) with q raises the count of q by one and no other count.
+func lemmaCountFillOne(a, b []*Target, n, j int, p *Target) {
+	if n <= 0 {
+		return
+	}
+	if j == n-1 {
+		lemmaCountFrame(a, b, n-1, p)
+	} else {
+		lemmaCountFillOne(a, b, n-1, j, p)
+	}
+}
+
+// lemmaCountAllNil: an empty ring holds no target.
+func lemmaCountAllNil(ts []*Target, n int, p *Target) {
+	if n <= 0 {
+		return
+	}
+	lemmaCountAllNil(ts, n-1, p)
+}
+
+// lemmaCountDistinctUpTo: among pairwise distinct targets, target i does not occur among the first n <= i entries.
+func lemmaCountDistinctUpTo(ts []*Target, n, i int) {
+	if n <= 0 {
+		return
+	}
+	lemmaCountDistinctUpTo(ts, n-1, i)
+}
+
+// lemmaCountDistinct: among pairwise distinct targets every one occurs exactly once.
+func lemmaCountDistinct(ts []*Target, n, i int) {
+	if n <= 0 {
+		return
+	}
+	if i == n-1 {
+		lemmaCountDistinctUpTo(ts, n-1, i)
+	} else {
+		lemmaCountDistinct(ts, n-1, i)
+	}
+}
